@@ -72,6 +72,10 @@ def load_fixture(name):
 
 def make_data(d):
     """Single series (T int) or list of series (T list)."""
+    if d.get("gen") == "reshape":
+        # one buffer (same bytes) viewed under the requested shape
+        buf = np.random.default_rng([int(d["seed"]), 53]).normal(size=int(d["total"]))
+        return buf.reshape(int(d["T"]), int(d["N"]))
     if d.get("gen") == "fixture":
         data = load_fixture(d["name"])
         if isinstance(data, list):
